@@ -46,6 +46,7 @@ def pack(tags, encoding='latin_1', cfgname=None):
         def rp():
             return {'kind': 'pack', 'args': {'tags': list(tags), 'lengths': [ev(n) for n in ns], 'encoding': encoding,
                                             'values': [concretize(v, ev) if isinstance(v, Rope) else v for v in vals], 'cfg': cfgname}}
+        core.set_fallback(rp, 'C12/concretised')
         with guard('_pds_to_de', 'C12/exception', rp):
             outs = iso._pds_to_de(dict(msg))
         # (1) concatenation of carriers == all sub-elements in ascending tag order, tag(4) len(3) value
